@@ -145,6 +145,90 @@ def r03_e(prog: Program, chk: Check) -> None:
     chk.ob("R03.e", "value::assignability-model::no-crash", not crashes, site, f"{len(crashes)} crashes" + (f"; first: {crashes[0]}" if crashes else ""), witness=crashes[:3])
 
 
+# ------------------------------------------------------------------- R03.f
+def _shape_of(spec) -> str:
+    tag = spec[0]
+    if tag in ("cls", "lit", "any"):
+        return "scalar type"
+    if tag == "union":
+        return "union"
+    if tag == "td":
+        return "TypedDict"
+    return {"list": "list[...]", "set": "set[...]", "frozenset": "frozenset[...]", "seq": "Sequence[...]", "iter": "Iterable[...]", "tuple*": "tuple[X, ...]", "tuple": "tuple[X, Y]", "dict": "dict[K, V]", "map": "Mapping[K, V]"}[tag]
+
+
+def _container_chunk(args):
+    part, nparts = args
+    from ..model import AnchorError as _AE
+    from ..model import Program as _P
+    from . import container_model as cmod
+
+    m = cmod.ContainerModel(_P())
+    classes = {}
+    unsupported = []
+    n = 0
+    todo = [(spec, cmod.OBJECTS) for spec in cmod.type_specs()] + [(spec, cmod.TD_OBJECTS) for spec in cmod.typeddict_specs()]
+    for idx, (spec, objects) in enumerate(todo):
+        if idx % nparts != part:
+            continue
+        T = m.value_of(spec)
+        shape = _shape_of(spec)
+        for o in objects:
+            n += 1
+            d = {"type": cmod.spec_str(spec), "object": repr(o)}
+            try:
+                r = m.can_assign(T, m.known(o))
+            except _AE as e:
+                unsupported.append({**d, "why": str(e)[:300]})
+                continue
+            exp = cmod.member(o, spec)
+            for key, bad in (
+                (f"{shape}::no-crash", isinstance(r, tuple)),
+                (f"{shape}::a non-member is rejected", (not isinstance(r, tuple)) and r and not exp),
+                (f"{shape}::a member is accepted", (not isinstance(r, tuple)) and (not r) and exp),
+            ):
+                c = classes.setdefault(key, {"n": 0, "bad": []})
+                c["n"] += 1
+                if bad:
+                    c["bad"].append({**d, **({"error": r[1]} if isinstance(r, tuple) else {})})
+    return n, classes, unsupported
+
+
+def r03_f(prog: Program, chk: Check) -> None:
+    import multiprocessing as mp
+    import os as _os
+
+    chk.rule(
+        "R03.f",
+        "structural assignability of a concrete object as a finite model: on top of R03.e, GenericValue / SequenceValue.can_assign, replace_known_sequence_value and "
+        "TypedValue.get_generic_args_for_type are interpreted from their AST (the generic bases of the builtin containers are a table of typeshed facts) for 38 real objects "
+        "(scalars, lists, tuples, sets, frozensets, dicts, nested one level) against 111 types (list / set / frozenset / Sequence / Iterable / tuple[X, ...] / tuple[X, Y] / "
+        "tuple[()] / dict / Mapping over 7 element types, nested containers, unions), and TypedDictValue.can_assign for 21 dict objects against 180 TypedDicts (required / NotRequired / ReadOnly items, open, closed, typed extra items): the object is accepted exactly when it is a structural member",
+        floor=20,
+    )
+    procs = 2 if _os.environ.get("VERIF_SELFTEST") else min(16, _os.cpu_count() or 1)
+    with mp.get_context("fork").Pool(procs) as pl:
+        results = pl.map(_container_chunk, [(i, procs * 2) for i in range(procs * 2)])
+    total = 0
+    merged = {}
+    unsupported = []
+    for n, classes, uns in results:
+        total += n
+        unsupported += uns
+        for k, c in classes.items():
+            mm = merged.setdefault(k, {"n": 0, "bad": []})
+            mm["n"] += c["n"]
+            mm["bad"] += c["bad"]
+    chk.model_evaluations += total
+    chk.analysed["container_model_objects"] = {"checks": total, "not_modelled": len(unsupported)}
+    site = prog.site("value", prog.find_method("GenericValue", "can_assign")[1])  # type: ignore[index]
+    for k, c in sorted(merged.items()):
+        bad = sorted(c["bad"], key=lambda d: (len(d["type"]) + len(d["object"]), repr(d)))
+        chk.ob("R03.f", f"value::container-model::{k}", not bad, site, f"{c['n']} (type, object) pairs, {len(bad)} failing" + (f"; smallest: {bad[0]}" if bad else ""), witness=bad[:5])
+    if unsupported:
+        raise AnchorError(f"{len(unsupported)} (type, object) pairs cannot be modelled; first: {unsupported[0]}")
+
+
 def run(prog: Program, chk: Check) -> None:
     from .c04 import early_accept_rule
 
@@ -153,3 +237,4 @@ def run(prog: Program, chk: Check) -> None:
     guard(chk, r03_b, prog, chk)
     guard(chk, r03_c, prog, chk)
     guard(chk, r03_e, prog, chk)
+    guard(chk, r03_f, prog, chk)
